@@ -203,6 +203,14 @@ func scenarios() []scenario {
 		dump.File{Name: "m1.yang", Text: `module m { ` + H("m") + ` revision 2020-01-01; include s; leaf a { type t; } }`},
 		dump.File{Name: "m2.yang", Text: `module m { ` + H("m") + ` revision 2021-01-01; include s; leaf b { type t; } }`},
 		dump.File{Name: "s.yang", Text: `submodule s { belongs-to m { prefix m; } typedef t { type int8; } leaf sl { type t; } container sc { leaf x { type string; } } }`})
+	// ... and the submodule defines identities that both revisions, an importer that pins the older
+	// revision and one that takes the latest derive from
+	add("two-revisions-share-submodule-identities", []string{"two-revisions-include-one-submodule"},
+		dump.File{Name: "m1.yang", Text: `module m { ` + H("m") + ` revision 2020-01-01; include s; identity d1 { base base-id; } leaf a { type identityref { base base-id; } } }`},
+		dump.File{Name: "m2.yang", Text: `module m { ` + H("m") + ` revision 2021-01-01; include s; identity d2 { base base-id; } identity d3 { base sd; } leaf b { type identityref { base sd; } } }`},
+		dump.File{Name: "s.yang", Text: `submodule s { belongs-to m { prefix m; } identity base-id; identity sd { base base-id; } leaf sl { type identityref { base base-id; } } }`},
+		dump.File{Name: "x.yang", Text: `module x { ` + H("x") + ` import m { prefix m; revision-date 2020-01-01; } identity y { base m:base-id; } identity y2 { base m:sd; } leaf r { type identityref { base m:base-id; } } }`},
+		dump.File{Name: "z.yang", Text: `module z { ` + H("z") + ` import m { prefix m; } identity w { base m:sd; } leaf r { type identityref { base m:base-id; } } }`})
 	add("uses-and-typedef-cross", nil, a, dump.File{Name: "g.yang", Text: `module g { ` + H("g") + ` typedef t { type int8 { range "1..9"; } } grouping gg { leaf gl { type t; } container gc { leaf gd { type t; default 3; } } } }`},
 		dump.File{Name: "u.yang", Text: `module u { ` + H("u") + ` import g { prefix g; } import a { prefix a; } typedef t { type string; } container k1 { uses g:gg; } container k2 { uses g:gg; leaf own { type t; } } augment /a:c { uses g:gg; } deviation /u:k1/u:gl { deviate replace { type string; } } }`})
 	// pairwise combinations of scenarios that extend module a with differently named modules
